@@ -193,5 +193,15 @@ Definition run_case (v : val) : val :=
       | WCrash => v_crash 0
       | WFuel => v_outoffuel
       end
+  | VL [VI 3; VI c0; VI st; e; inner] =>
+      (* the body also contains \ifthenelse{inner}{Y}{N}: report the value of the inner test at every iteration *)
+      let ev x c := match expr_of 200 c x with Some e => evaluate (pr_e e) | None => None end in
+      match whiledo (fun s => ev e (fst s))
+                    (fun s => (fst s + st, match ev inner (fst s) with Some b => ofB b | None => VI (-2) end :: snd s))
+                    64 0 (c0, []) with
+      | WDone n s => VL [VI 0; ofNat n; VI (fst s); VL (rev (snd s))]
+      | WCrash => v_crash 0
+      | WFuel => v_outoffuel
+      end
   | _ => v_bad_input
   end.
